@@ -103,6 +103,12 @@ func runC13(c *engine.Ctx, tier string) {
 	targetResolution(c)
 	operationChecks(c)
 	transactionBuilt(c)
+	strategyRange(c)
+	// "a path that is not a writable model path": which model paths a delete path lies above is a relation at
+	// path element boundaries, like every other 'lies beneath' of the code base (this site was once exempted
+	// from the rule as "loose model lookup"; the exemption hid finding F47)
+	pathRelationMin(c, "C13.14", []string{pkgUtilsPath}, 1)
+	ownKeyCompared(c)
 	limitWiring(c)
 	// "a path that is not a writable model path": the model check is made on the rendered path string, so a
 	// '/' inside one element's name must not render as an element boundary
@@ -161,7 +167,7 @@ func limitWiring(c *engine.Ctx) {
 
 // targetResolution: C13.7. What getTargetInfo does for one operation, path by path.
 func targetResolution(c *engine.Ctx) {
-	o := c.Custom("C13.7", "K-facts(target resolution)", "in getTargetInfo, with T = the prefix target if non-empty else the operation's own target (both cases occur): targets[T] present => that entry is returned and nothing is written; absent => the Configurable of topo.ID(T) is fetched, type/version come from overrides[T] when present and non-nil, otherwise from the Configurable (and are then recorded in overrides[T]), the plugin is looked up by exactly that type/version, a failed fetch or a missing plugin returns an error and registers nothing, success registers under targets[T] the very record that is returned, with targetID T, that plugin, type/version from the plugin's info and allocated updates/removes",
+	o := c.Custom("C13.7", "K-facts(target resolution)", "in getTargetInfo, with T = the prefix target if non-empty else the operation's own target (both cases occur): targets[T] present => that entry is returned and nothing is written; absent => the Configurable of topo.ID(T) is fetched, type/version come from overrides[T] when present and non-nil, otherwise from the Configurable, the plugin is looked up by exactly that type/version, overrides[T] is then set to the resolved plugin's own name and version (what Get files the configuration under), a failed fetch or a missing plugin returns an error and registers nothing, success registers under targets[T] the very record that is returned, with targetID T, that plugin, type/version from the plugin's info and allocated updates/removes",
 		"unknown target or model is refused before anything is logged, and all operations of one target accumulate in one record")
 	defer o.Done(6)
 	ps, err := c.A.PathsOpt(pkgNbGnmi, engine.PathOpts{Roots: []string{".Server.getTargetInfo"}})
@@ -267,17 +273,21 @@ func targetResolution(c *engine.Ctx) {
 			}
 		}
 		if fromOv {
-			if getPlugin.Args[0] != ov+".TargetType" || getPlugin.Args[1] != ov+".TargetVersion" || ovWrite != nil {
-				fail(p, last, "with a type/version override for the target, the plugin is looked up by "+c.Render(strings.Join(getPlugin.Args, ", "))+" (or the override is rewritten)")
+			if getPlugin.Args[0] != ov+".TargetType" || getPlugin.Args[1] != ov+".TargetVersion" {
+				fail(p, last, "with a type/version override for the target, the plugin is looked up by "+c.Render(strings.Join(getPlugin.Args, ", ")))
 			}
 		} else {
 			if !strings.HasPrefix(getPlugin.Args[0], "config/v2.TargetType(") || !strings.HasSuffix(getPlugin.Args[0], "topo.Configurable).Type)") ||
 				!strings.HasPrefix(getPlugin.Args[1], "config/v2.TargetVersion(") || !strings.HasSuffix(getPlugin.Args[1], "topo.Configurable).Version)") {
 				fail(p, last, "without an override the plugin is looked up by "+c.Render(strings.Join(getPlugin.Args, ", "))+", not by the Configurable aspect's type and version")
 			}
-			if ovWrite == nil || ovWrite.LHS != ov || !strings.Contains(ovWrite.RHS, "TargetType:"+getPlugin.Args[0]) || !strings.Contains(ovWrite.RHS, "TargetVersion:"+getPlugin.Args[1]) {
-				fail(p, last, "the type/version taken from the Configurable aspect are not recorded in the request's overrides under the resolved target: the controllers downstream would validate against another model")
-			}
+		}
+		// what travels downstream (and names the configuration) is the resolved plugin's own name and version:
+		// the registry finds a plugin whatever the letter case, Get files the configuration under the plugin's name
+		plugName := "config/v2.TargetType({" + getPlugin.Canon + "}pluginregistry.ModelPlugin.GetInfo().Info.Name)"
+		plugVer := "config/v2.TargetVersion({" + getPlugin.Canon + "}pluginregistry.ModelPlugin.GetInfo().Info.Version)"
+		if ovWrite == nil || ovWrite.LHS != ov || !strings.Contains(ovWrite.RHS, "TargetType:"+plugName) || !strings.Contains(ovWrite.RHS, "TargetVersion:"+plugVer) {
+			fail(p, last, "the request's overrides do not carry, under the resolved target, the type and version as the resolved plugin spells them: Set would file the change under another configuration than the one Get reads")
 		}
 		if targetsWrite == nil || !strings.HasPrefix(targetsWrite.RHS, "&northbound/gnmi/v2.targetInfo{") || ret.Results[0] != targetsWrite.RHS {
 			fail(p, last, "the record returned for the operation is not the one registered under the resolved target")
@@ -559,6 +569,8 @@ func addressing(c *engine.Ctx, sp []*engine.Path, err error) {
 					want := `fmt.Sprintf("%s%s",` + prefix + "," + opPath + ")"
 					if noPrefix {
 						want = opPath
+					} else if noOwn {
+						want = prefix
 					}
 					if e.Args[0] != want && !(noOwn && e.Args[0] == prefix) {
 						o.Fail(&engine.Violation{Key: root + "|json base path", Pos: c.P.Pos(e.Pos), Func: p.Root.Name(),
@@ -587,16 +599,21 @@ func addressing(c *engine.Ctx, sp []*engine.Path, err error) {
 					opPath = "utils.StrPath($Path'2)"
 				}
 				prefix := "utils.StrPath($Path)"
-				noPrefix := false
+				noPrefix, noOwn := false, false
 				for _, l := range engine.CondsBefore(p, i) {
 					if l.L == prefix && l.R == `"/"` && l.Mask == 2 {
 						noPrefix = true
+					}
+					if l.L == opPath && l.R == `"/"` && l.Mask == 2 {
+						noOwn = true
 					}
 				}
 				classes[noPrefix] = true
 				want := `fmt.Sprintf("%s%s",` + prefix + "," + opPath + ")"
 				if noPrefix {
 					want = opPath
+				} else if noOwn {
+					want = prefix // an empty operation path: the prefix itself names the node (no trailing '/')
 				}
 				okStored := stored == want
 				if root == ".Server.doDelete" && strings.HasPrefix(stored, want+"[:strings.LastIndex("+want+",") {
@@ -608,6 +625,18 @@ func addressing(c *engine.Ctx, sp []*engine.Path, err error) {
 					return
 				}
 			}
+		}
+		ownSeen := false
+		for _, p := range dp {
+			for i := range p.Events {
+				if e := &p.Events[i]; e.Kind == engine.EvCond && (e.Lit.L == "utils.StrPath($Update.Path)" || e.Lit.L == "utils.StrPath($Path'2)") && e.Lit.R == `"/"` {
+					ownSeen = true
+				}
+			}
+		}
+		if n > 0 && !ownSeen {
+			o.Fail(&engine.Violation{Key: root + "|empty operation path", Pos: pkgNbGnmi, Func: root,
+				Msg: "the empty operation path is not distinguished when the stored path is built: with a non-root prefix the effective path becomes prefix + \"/\" and a valid request is refused"})
 		}
 		if n > 0 && len(classes) < 2 {
 			o.Fail(&engine.Violation{Key: root + "|prefix classes", Pos: pkgNbGnmi, Func: root,
@@ -745,8 +774,8 @@ func operationChecks(c *engine.Ctx) {
 	}
 	jv := "{{$Update}gnmi.Update.GetVal()}gnmi.TypedValue.GetJsonVal()"
 	c.Guard(engine.Guard{ID: "C13.8i", Pkg: pkgNbGnmi, Min: 2, Sel: upd, PathsOverride: ps,
-		Require: "(" + jv + " != nil && #ok(" + jsonpv + ")) || (" + jv + " == nil && #ok(" + find + ") && #ok(" + conv + ") && #ok(" + keychk + "))",
-		Why:     "an update is recorded only after the model accepted it: a JSON document through the plugin's GetPathValues, a scalar through the writable-path, type and list-key checks"})
+		Require: "(" + jv + " != nil && #ok(" + jsonpv + ") && #ok(" + find + ") && #ok(" + keychk + ")) || (" + jv + " == nil && #ok(" + find + ") && #ok(" + conv + ") && #ok(" + keychk + "))",
+		Why:     "an update is recorded only after the model accepted it: a scalar through the writable-path, type and list-key checks, and every path a JSON document decomposes to (the plugin decomposes, the checking is Set's) through the writable-path and list-key checks as well"})
 	c.Guard(engine.Guard{ID: "C13.8j", Pkg: pkgNbGnmi, Min: 1, Sel: rem, PathsOverride: ps,
 		Require: "#ok(" + find + ")",
 		Why:     "a delete is recorded only for a path the model knows as writable"})
@@ -758,15 +787,14 @@ func operationChecks(c *engine.Ctx) {
 // operation is recorded — for deletes as for updates, for every key and not just the first.
 func keyValuesChecked(c *engine.Ctx, id string, ps []*engine.Path) {
 	const chk = "northbound/gnmi/v2.checkPathIndexValues"
-	jv := "{{$Update}gnmi.Update.GetVal()}gnmi.TypedValue.GetJsonVal()"
 	c.Guard(engine.Guard{ID: id + "a", Pkg: pkgNbGnmi, Min: 1, PathsOverride: ps,
 		Sel:     engine.Sel{Field: "northbound/gnmi/v2.targetInfo.removes"},
 		Require: "#ok(" + chk + ")",
 		Why:     "a delete path whose key values the path parser would refuse (an empty value renders as [k=]) must be refused, not committed: the stored text can never be read back and the target's proposals block behind it"})
 	c.Guard(engine.Guard{ID: id + "b", Pkg: pkgNbGnmi, Min: 2, PathsOverride: ps,
 		Sel:     engine.Sel{Field: "northbound/gnmi/v2.targetInfo.updates[]"},
-		Require: jv + " != nil || #ok(" + chk + ")",
-		Why:     "the same for the path of a scalar update (the paths of a JSON document come from the model plugin)"})
+		Require: "#ok(" + chk + ")",
+		Why:     "the same for the path of a scalar update and for every path a JSON document decomposes to"})
 	o := c.Custom(id+"c", "helper shape(checkPathIndexValues)", "checkPathIndexValues ranges over every index value ExtractIndexNames finds in the path and returns the error of CheckPathIndexIsValid for the first that fails; nil only after all passed",
 		"every key value, not only the first")
 	defer o.Done(1)
@@ -862,6 +890,21 @@ func transactionBuilt(c *engine.Ctx) {
 		}
 		switch name {
 		case "computeChange":
+			// deletes are collected before updates, so that an update of a path the request also deletes remains
+			ri, ui := -1, -1
+			for i := range p.Events {
+				if e := &p.Events[i]; e.Kind == engine.EvLoopEnter {
+					if e.Range == "$targetInfo.removes" && ri < 0 {
+						ri = i
+					}
+					if e.Range == "$targetInfo.updates" && ui < 0 {
+						ui = i
+					}
+				}
+			}
+			if ri < 0 || ui < 0 || ri > ui {
+				fail(p, "the updates are collected before the deletes: a delete overwrites an update of the same path (gNMI processes deletes first, the update is what remains)")
+			}
 			m := ""
 			if v, ok := fields["config/v2.PathValues.Values"]; ok {
 				m = base(v)
@@ -910,6 +953,89 @@ func transactionBuilt(c *engine.Ctx) {
 	for _, n := range []string{"computeChange", "computeChanges", "newTransaction"} {
 		if seen[n] {
 			o.Site(n)
+		}
+	}
+}
+
+// strategyRange: C13.13. Enumerations travel as plain integers; the handlers decide with == on named
+// values, so a value outside the enumeration falls through every arm (Set's wait loop never answers).
+func strategyRange(c *engine.Ctx) {
+	o := c.Custom("C13.13", "range(enumeration of an extension)", "getTransactionStrategy returns a strategy taken from the request only on paths that found both Synchronicity and Isolation in the generated <Enum>_name tables",
+		"a malformed extension is refused before anything is logged; a synchronicity the wait loop does not know would be logged, carried out and never answered")
+	defer o.Done(1)
+	ps, err := c.A.PathsOpt(pkgNbGnmi, engine.PathOpts{Roots: []string{"v2.getTransactionStrategy"}, NoInline: true})
+	if err != nil || len(ps) == 0 {
+		o.Undecided("getTransactionStrategy", fmt.Sprintf("no paths: %v", err))
+		return
+	}
+	for _, p := range ps {
+		last := &p.Events[len(p.Events)-1]
+		if last.Kind != engine.EvReturn || len(last.Results) != 2 || last.Results[1] != "nil" || !strings.HasPrefix(last.Results[0], "*") {
+			continue
+		}
+		o.Site(c.P.Pos(last.Pos))
+		o.Eval(1)
+		src := strings.TrimPrefix(last.Results[0], "*")
+		for _, f := range []string{"Synchronicity", "Isolation"} {
+			want := "has(config/v2.TransactionStrategy_" + f + "_name[int32(" + src + "." + f + ")])"
+			ok := false
+			for _, l := range engine.CondsBefore(p, len(p.Events)-1) {
+				if l.L == want && l.R == "true" && l.Mask == 2 {
+					ok = true
+				}
+			}
+			if !ok {
+				o.Fail(&engine.Violation{Key: "getTransactionStrategy|" + f + " not range-checked", Pos: c.P.Pos(last.Pos), Func: p.Root.Name(),
+					Msg: "the strategy of the request is returned without its " + f + " having been found in TransactionStrategy_" + f + "_name: a value outside the enumeration is accepted"})
+				return
+			}
+		}
+	}
+}
+
+// ownKeyCompared: C13.15. "a list-key leaf whose value contradicts its key": its key is the key of its own
+// list entry — the path element directly above the leaf — not any index of that name further up.
+func ownKeyCompared(c *engine.Ctx) {
+	o := c.Custom("C13.15", "helper shape(CheckKeyValue)", "utils/path.CheckKeyValue returns nil for a key leaf (IsAKey) only on a path that compared AttrName with an index name taken from ExtractIndexNames of the element directly above the leaf (SplitPath(path)[len-2]), never from the indexes of the whole path",
+		"in nested lists keyed by the same name an outer key must not vouch for an inner key leaf")
+	defer o.Done(1)
+	ps, err := c.A.PathsOpt(pkgUtilsPath, engine.PathOpts{Roots: []string{"utils/path.CheckKeyValue"}, Exact: true, NoInline: true})
+	if err != nil || len(ps) == 0 {
+		o.Undecided("CheckKeyValue", fmt.Sprintf("no paths: %v", err))
+		return
+	}
+	const own = "utils/path.ExtractIndexNames(utils.SplitPath($path)[(len(utils.SplitPath($path)) - 2)])"
+	for _, p := range ps {
+		last := &p.Events[len(p.Events)-1]
+		if last.Kind != engine.EvReturn || len(last.Results) != 1 || last.Results[0] != "nil" {
+			continue
+		}
+		isKey, whole, ownEq := false, "", false
+		for i := range p.Events {
+			e := &p.Events[i]
+			if e.Kind != engine.EvCond {
+				continue
+			}
+			if e.Lit.L == "$ReadWritePath.IsAKey" && e.Lit.R == "true" && e.Lit.Mask == 2 {
+				isKey = true
+			}
+			if e.Lit.L == "$ReadWritePath.AttrName" && e.Lit.Mask == 2 && strings.HasPrefix(e.Lit.R, "elem(") {
+				if e.Lit.R == "elem("+own+")" {
+					ownEq = true
+				} else {
+					whole = e.Lit.R
+				}
+			}
+		}
+		if !isKey {
+			continue // not a key leaf (or the flag was not consulted on this path: nothing is vouched for)
+		}
+		o.Site("")
+		o.Eval(1)
+		if !ownEq {
+			o.Fail(&engine.Violation{Key: "utils/path.CheckKeyValue|key leaf accepted without its own key", Pos: c.P.Pos(last.Pos), Func: p.Root.Name(),
+				Msg: "a key leaf is accepted on a path that did not compare it with a key of the element directly above it (compared with: " + c.Render(whole) + "): an outer list's key of the same name vouches for it"})
+			return
 		}
 	}
 }
